@@ -313,7 +313,10 @@ class Array(Processor):
 
             # Skip redundant bits post decoding.
             if self.extensible and not ctx.is_encode:
-                ito = i + ahead * self.capacity
+                # The opponent array occupies 16 bits (ahead) plus `ahead` elements,
+                # each as large as the elements just processed.
+                element_nbits = (ctx.i - i - 16) // self.capacity
+                ito = i + 16 + ahead * element_nbits
                 if ito >= ctx.i:
                     ctx.i = ito
 
